@@ -635,6 +635,8 @@ for (sig, th, v0, dt) in ((0.2, 0.04, 0.09, 0.02), (2.0, 0.01, 0.002, 0.02)):
     t = 5 * dt; e = math.exp(-kap * t)
     mean = th + (v0 - th) * e; var = v0 * sig ** 2 / kap * (e - e * e) + th * sig ** 2 / (2 * kap) * (1 - e) ** 2
     if z(v[:, -1].mean(), mean, float(v[:, -1].std()) / n ** 0.5) > 6: bad.append(("cir mean", sig, float(v[:, -1].mean()), mean))
+    e1 = math.exp(-kap * dt); var1 = v0 * sig ** 2 / kap * (e1 - e1 * e1) + th * sig ** 2 / (2 * kap) * (1 - e1) ** 2
+    if abs(float(v[:, 1].var()) / var1 - 1) > 0.03: bad.append(("cir one-step variance", sig, float(v[:, 1].var()), var1))
     h = ps.generate_heston(n, 6, init_state=(1.0, v0), kappa=kap, theta=th, sigma=sig, dt=dt, dtype=torch.float64)
     if z(h.variance[:, -1].mean(), mean, float(h.variance[:, -1].std()) / n ** 0.5) > 6: bad.append(("heston variance mean", sig, float(h.variance[:, -1].mean()), mean))
 # Vasicek from a start away from theta
@@ -796,6 +798,31 @@ def kou_ob(aspect=None):
                       clause='Kou: (n_paths, n_steps), first column S0, positive; E[S_t] = S0 exp(mu t) with the compensator computed from the SAME up-probability and rates as the sampled jumps; zero intensity = geometric Brownian motion')
 
 
+def _concrete_lemma_refute(so, tries=300):
+    """a lemma `range => lhs == rhs` the solver left open: look for a concrete point (exact rational / mpmath evaluation of both sides
+    under the ground hypotheses) where the two sides differ"""
+    g = so['goal']
+    conds = []
+    while g.op == 'or' or g.op == 'implies':
+        break
+    # implies(a, b) is stored as or(not a, b): peel disjuncts that are negated conditions
+    if g.op == 'or':
+        eqs = [a for a in g.args if a.op == 'eq']
+        others = [a for a in g.args if a.op != 'eq']
+        if len(eqs) != 1:
+            return None
+        conds = [tm.not_(a) for a in others]
+        g = eqs[0]
+    if g.op != 'eq' or g.args[0].sort != 'R':
+        return None
+    ground = [h for h in so['hyps'] if 'forall' not in tm.show(h)[:4000]] + conds
+    cs = fc.Case(None)
+    try:
+        return fc.random_refute(cs, ground, g.args[0], g.args[1], tries=tries)
+    except Exception:
+        return None
+
+
 def cir_moments_ob():
     """one QE step: conditional mean and variance on both branches equal the closed-form CIR moments.
     The loop of the real generate_cir is cut; m, s2, psi are abstracted mid-body by the facts
@@ -902,8 +929,14 @@ def cir_moments_ob():
                 for so in p.side:
                     if so['kind'] != 'lemma':
                         continue
-                    r = smt.prove(so['hyps'], so['goal'], timeout_ms=60000)
-                    rows.append((so['name'], {'unsat': 'proved', 'sat': 'refuted'}.get(r.status, 'unknown'), (r.reason or '') if r.status != 'unsat' else ''))
+                    r = smt.prove(so['hyps'], so['goal'], timeout_ms=20000)
+                    st_ = {'unsat': 'proved', 'sat': 'refuted'}.get(r.status, 'unknown')
+                    why = (r.reason or '') if r.status != 'unsat' else ''
+                    if st_ == 'unknown':
+                        w_ = _concrete_lemma_refute(so)
+                        if w_ is not None:
+                            st_, why = 'refuted', 'the two sides differ at %s' % {k_: v_ for k_, v_ in w_.items() if not k_.endswith('.shape')}
+                    rows.append((so['name'], st_, why))
         if not rows:
             return Verdict('unknown', 'engine', time.time() - t0, 'no iteration path')
         return _verdict_law(rows, t0, {'claim': 'Andersen QE step matches the first two conditional moments of the CIR process on both branches', 'rewritten': info['rewritten'][-700:]})
